@@ -67,6 +67,27 @@ def check_derived(g) -> list[str]:
     return errs
 
 
+def check_eq_sequences(g) -> list[str]:
+    """Sequences of == with strings on several objects: valid, malformed, the same malformed string again, another code."""
+    from han import obis
+
+    errs = []
+    s = RO.reduced(g)
+    a, b = obis.Obis.from_string(s), obis.Obis.from_string(s)
+    other = RO.reduced((None, None, (g[2] + 1) % 256, g[3], None, None))
+    c = obis.Obis.from_string(other)
+    steps = [(a, s, True), (a, "kWh", False), (b, "kWh", False), (b, "kWh", False), (c, s, other == s), (a, other, other == s), (b, "", False), (a, "", False),
+             (a, s, True), (c, "1.", False), (c, "1.", False), (c, other, True), (b, s + " ", None)]
+    for i, (o, text, want) in enumerate(steps):
+        got = (o == text)
+        if want is None:
+            want = tuple(o.as_tupple()) == tuple(obis.to_obis_tupple(text))
+        if bool(got) != want:
+            errs.append(f"step {i} of a comparison sequence: Obis({o.as_tupple()!r}) == {text!r} is {got!r}, expected {want}")
+            break
+    return errs
+
+
 def check_roundtrip(g) -> list[str]:
     from han import obis
 
@@ -117,6 +138,8 @@ def replay(case: dict) -> list[str]:
         return check_roundtrip(g)
     if k == "derived":
         return check_derived(g)
+    if k == "eqseq":
+        return check_eq_sequences(g)
     if k == "malformed":
         return check_malformed(case["text"])
     return check_pair(tuple(case["g1"]), tuple(case["g2"]))
@@ -154,6 +177,10 @@ def _work_parse(pattern) -> core.Part:
             p.out("roundtrip_ok" if not e else "roundtrip_broken")
             if e:
                 p.viol("roundtrip", f"roundtrip:{g}", e[0], {"kind": "roundtrip", "groups": list(g)}, size=sum(x is not None for x in g))
+        e = check_eq_sequences(g)
+        p.add("evaluations")
+        if e:
+            p.viol("equality", f"eqseq:{g}", e[0], {"kind": "eqseq", "groups": list(g)}, size=sum(x is not None for x in g))
         e = check_derived(g)
         p.add("evaluations")
         if e:
